@@ -227,4 +227,8 @@ def run(P, R, tier):
     c19.link_insert(P, R, 'C10.SET.LINK')
     c19.link_remove(P, R, 'C10.SET.LINK')
     c19.use_after_dispose(P, R, disp, 'C10.SET.UAF')
+    # requests are found by id: the id comparator is a total order for every pair of ints
+    c19.comparators(P, R, 'C10.SET.ARITH')
+    # a request whose flag word is combined with a set of another kind can never satisfy the gate and is never retired
+    rules.bitset_domains(P, R, 'C10.TAB.1')
     return EXPLANATION, ASSUMPTIONS
